@@ -44,7 +44,9 @@ type feat struct {
 	Enc     int  `json:"encoder"`  // 0 crypto/x509.CreateCertificate, 1 ref/der+ref/pki
 }
 
-func (f feat) String() string { return fmt.Sprintf("%+v", f) }
+type featPlain feat
+
+func (f feat) String() string { return fmt.Sprintf("%+v", featPlain(f)) }
 
 var keyNames = [3][2]string{{"p256-1", "p256-0"}, {"rsa2048-1", "rsa2048-0"}, {"ed25519-1", "ed25519-0"}} // subject, issuer
 
@@ -434,8 +436,9 @@ func richCerts() []*built {
 	mk("aki-without-keyid", pki.Tmpl{Exts: []pki.Ext{{OID: pki.OIDAKI, Value: der.Seq(der.ImplicitCons(1, dirName), der.ImplicitPrim(2, []byte{0x05}))}}})
 	mk("crldp-reasons-and-crlissuer", pki.Tmpl{Exts: []pki.Ext{{OID: oidCRLDP, Value: der.Seq(
 		der.Seq(der.ImplicitCons(0, der.ImplicitCons(0, gn(6, []byte(crlURLs[0])), dirName)), der.ImplicitPrim(1, []byte{1, 0x60})),
-		der.Seq(der.ImplicitCons(2, dirName)),
-		der.Seq(der.ImplicitCons(0, der.ImplicitCons(1, der.Seq(der.OID(pki.OIDCN...), der.UTF8("relative"))))))}}})
+		der.Seq(der.ImplicitCons(2, dirName)))}}})
+	// (a DistributionPoint with nameRelativeToCRLIssuer is well-formed too, but crypto/x509 of go1.23 rejects it,
+	// so it cannot be compared and is left out)
 	mk("aia-non-uri-locations-and-other-methods", pki.Tmpl{Exts: []pki.Ext{{OID: oidAIA, Value: der.Seq(
 		der.Seq(der.OID(oidOCSP...), dirName),
 		der.Seq(der.OID(1, 3, 6, 1, 5, 5, 7, 48, 5), gn(6, []byte("http://repo.example.com/"))),
@@ -449,9 +452,9 @@ func richCerts() []*built {
 	mk("ku-all-nine-bits", pki.Tmpl{Exts: []pki.Ext{{OID: pki.OIDKeyUsage, Critical: true, Value: der.BitString([]byte{0xff, 0x80}, 7)}}})
 	mk("ku-single-bit", pki.Tmpl{Exts: []pki.Ext{{OID: pki.OIDKeyUsage, Critical: false, Value: der.BitString([]byte{0x80}, 7)}}})
 	mk("bc-noncritical-pathlen-255", pki.Tmpl{Exts: []pki.Ext{{OID: pki.OIDBasicConstraints, Value: der.Seq(der.Bool(true), der.Int(255))}}})
-	mk("sct-list-and-poison-oids-as-unknown", pki.Tmpl{Exts: []pki.Ext{{OID: []int{2, 5, 29, 54}, Critical: true, Value: der.Int(0)}, {OID: []int{2, 5, 29, 36}, Critical: true, Value: der.Seq(der.ImplicitPrim(0, []byte{0}))}}})
+	mk("policy-constraints-and-inhibit-any-critical", pki.Tmpl{Exts: []pki.Ext{{OID: []int{2, 5, 29, 54}, Critical: true, Value: der.Int(0)}, {OID: []int{2, 5, 29, 36}, Critical: true, Value: der.Seq(der.ImplicitPrim(0, []byte{0}))}}})
 	mk("serial-zero", pki.Tmpl{Serial: []byte{0}})
-	mk("generalizedtime-before-2050-is-rejected-by-nobody", pki.Tmpl{NotAfterDER: der.GeneralizedTime(time.Date(9999, 12, 31, 23, 59, 59, 0, time.UTC))})
+	mk("notafter-99991231235959Z", pki.Tmpl{NotAfterDER: der.GeneralizedTime(time.Date(9999, 12, 31, 23, 59, 59, 0, time.UTC))})
 	return out
 }
 
